@@ -134,18 +134,18 @@ def cli_posterior_oracle(chk, drv, synth, ds, tmp, inb):
                     if m_post[_vcf_index(gt)] < best - 1e-3:
                         chk.violation("call-exact GT is not a maximiser of likelihood x reported prior",
                                       {**case, "GT": gt, "P(GT)": m_post[_vcf_index(gt)], "max": best}, "C03/cli/GT-not-maximiser")
-                    if "GPM" in smp and smp["GPM"] != "." and abs(float(smp["GPM"]) - m_post[_vcf_index(gt)]) > tol:
+                    if "GPM" in smp and smp["GPM"] != "." and not (abs(float(smp["GPM"]) - m_post[_vcf_index(gt)]) <= tol):
                         chk.violation("call-exact GPM is not the posterior probability of the reported GT",
                                       {**case, "GPM": smp["GPM"], "model": m_post[_vcf_index(gt)]}, "C03/cli/GPM")
                     if "GP" in smp and smp["GP"] != ".":
                         gp = [float(x) for x in smp["GP"].split(",")]
-                        if len(gp) != len(m_post) or any(abs(x - y) > tol for x, y in zip(gp, m_post)):
+                        if len(gp) != len(m_post) or any(not (abs(x - y) <= tol) for x, y in zip(gp, m_post)):
                             chk.violation("call-exact GP is not likelihood x reported prior normalised over the genotypes in VCF order",
                                           {**case, "GP": gp[:12], "model": [round(x, 5) for x in m_post[:12]]}, "C03/cli/GP")
                     for key, mv, scale in (("AFP", m_afp, 1), ("ACP", m_acp, ploidy), ("AOP", m_aop, 1)):
                         if key in smp and smp[key] != ".":
                             iv = [float(x) for x in smp[key].split(",")]
-                            if len(iv) != len(mv) or any(abs(x - y) > tol * scale for x, y in zip(iv, mv)):
+                            if len(iv) != len(mv) or any(not (abs(x - y) <= tol * scale) for x, y in zip(iv, mv)):
                                 chk.violation(f"call-exact {key} is not the posterior summary of likelihood x reported prior",
                                               {**case, key: iv, "model": [round(x, 5) for x in mv]}, f"C03/cli/{key}")
     finally:
@@ -230,7 +230,7 @@ def run(tier, replay=None):
         if len(post) != len(m_post) or any(abs(float(x) - y) > F32 for x, y in zip(post, m_post)):
             chk.disagreement("genotype_posteriors (GP array) != model posterior in VCF order", {**case, "impl": [float(x) for x in post], "model": m_post})
         for nm, iv, mv in (("AFP", afp_a, m_afp), ("ACP", acp_a, m_acp), ("AOP", aop_a, m_aop)):
-            if any(abs(float(x) - y) > F32 * ploidy for x, y in zip(iv, mv)):
+            if any(not (abs(float(x) - y) <= F32 * ploidy) for x, y in zip(iv, mv)):
                 chk.disagreement(f"array-path {nm} != model", {**case, "impl": [float(x) for x in iv], "model": mv})
         # ---------------- oracles on the implementation
         genos = list(itertools.combinations_with_replacement(range(n), ploidy))
@@ -256,7 +256,7 @@ def run(tier, replay=None):
                           {**case, "SPM": float(spm_s), "expected": sup_truth}, "C03/SPM")
         if not (float(gpm_s) <= float(spm_s) + 1e-12 and float(spm_s) <= 1 + 1e-9):
             chk.violation("GPM <= SPM <= 1 violated", {**case, "GPM": float(gpm_s), "SPM": float(spm_s)}, "C03/GPM-SPM-order")
-        if abs(float(np.sum(afp_s)) - 1) > 1e-9 or abs(float(np.sum(acp_a)) - ploidy) > 1e-4 * ploidy:
+        if not (abs(float(np.sum(afp_s)) - 1) <= 1e-9) or not (abs(float(np.sum(acp_a)) - ploidy) <= 1e-4 * ploidy):
             chk.violation("AFP does not sum to 1 / ACP not to the ploidy", {**case, "sum_AFP": float(np.sum(afp_s)), "sum_ACP": float(np.sum(acp_a))},
                           "C03/AFP-ACP/sums")
         afp_truth = [sum(t * g.count(a) for g, t in zip(genos, truth)) / ploidy for a in range(n)]
